@@ -73,7 +73,7 @@ type c04Binding struct { // a schedule binding
 	Crontab string
 	AF      bool
 	Group   int
-	CfgName string // the `name:` of the configuration: "" = Name, "-" = no name (default name "schedule"), else a name other bindings may share
+	CfgName string   // the `name:` of the configuration: "" = Name, "-" = no name (default name "schedule"), else a name other bindings may share
 	Snaps   []string // includeSnapshotsFrom: names of kubernetes bindings of the hook (unambiguous ones)
 }
 
@@ -103,8 +103,8 @@ type c04KBinding struct { // a kubernetes binding (ConfigMaps labelled verif=<Na
 	Name    string // unique key: namespace and label of the binding's objects
 	AF      bool
 	Group   int
-	EOS     bool   // executeHookOnSynchronization
-	CfgName string // see c04Binding.CfgName (default name "kubernetes")
+	EOS     bool     // executeHookOnSynchronization
+	CfgName string   // see c04Binding.CfgName (default name "kubernetes")
 	Snaps   []string // includeSnapshotsFrom (see c04Binding.Snaps)
 	Jq      bool     // jqFilter: ".data" — the hook is shown a filterResult next to every object
 }
@@ -1668,6 +1668,46 @@ func runC04(r *Run) {
 		})
 		r.Exhaust = true
 		r.Extra["exhaustive_scope"] = fmt.Sprintf("all %d scripts: layouts of 1..3 schedule tasks over 2 hooks x allowFailure, every task failing 0..2 times, x (bindings with unique names | both bindings of a hook unnamed)", len(cfgs))
+		// exhaustive small scope 2: what the hook is shown on the retry of kubernetes Event tasks —
+		// jqFilter x includeSnapshotsFrom x grouped x objects before the start x second event of the same / another binding x 1..2 failures
+		r.Cases(4000000, 64, 0, func(c *Case, _ *Rng) {
+			m := c.Idx - 4000000
+			bit := func(i int) bool { return m>>i&1 == 1 }
+			k1 := c04KBinding{Name: "k1", EOS: true, Jq: bit(0)}
+			if bit(1) {
+				k1.Snaps = []string{"k1", "k2"}
+			}
+			if bit(2) {
+				k1.Group = 1
+			}
+			hooks := []c04Hook{
+				{Name: "hook01", Num: 1, Queue: 1, KBindings: []c04KBinding{k1, {Name: "k2", EOS: true}}},
+				{Name: "hook02", Num: 2, Queue: 1, Bindings: []c04Binding{{Name: "b4", Crontab: "3 0 1 1 *", AF: true}}},
+			}
+			second := c04Ev{0, 0, true}
+			if bit(4) {
+				second = c04Ev{0, 1, true}
+			}
+			fails := 1
+			if bit(5) {
+				fails = 2
+			}
+			p := c04Plan{hooks: hooks, boInit: 15 * time.Millisecond, boStep: 5 * time.Millisecond, maxSteps: 30,
+				initial: map[int][]c04Ev{1: {{1, 0, false}, {0, 0, true}, second, {1, 0, false}}}}
+			if bit(3) {
+				p.preObjs = 1
+			}
+			p.outcome = func(id, failed int) string {
+				if failed < fails {
+					return "exit"
+				}
+				return "ok"
+			}
+			c.Desc = fmt.Sprintf("exhaustive payload scope: jq=%v snaps=%v grouped=%v pre=%v second-of-other-binding=%v fails=%d", bit(0), bit(1), bit(2), bit(3), bit(4), fails)
+			c.Nontrivial = true
+			c04Execute(c, r, p)
+		})
+		r.Extra["exhaustive_scope_payload"] = "all 64 scripts: two kubernetes Event tasks (same / another binding) of one hook behind a gate run, binding with jqFilter x includeSnapshotsFrom x group x objects existing before the start, every run failing 1..2 times"
 		// the default back-off once (5 s)
 		r.One(2000000, func(c *Case, _ *Rng) {
 			c.Desc = "default ExponentialBackoffFn (5 s initial delay), one failure then success"
